@@ -28,6 +28,7 @@ pub fn single(name: &str, cfg: Scenario, ack: bool, size: u64, dev: usize) -> DS
         seq_start: None,
         bursts: false,
         default_cfg: None,
+        src_symlink: false,
     }
 }
 
@@ -95,10 +96,12 @@ pub struct Conf {
     pub divergences: Vec<String>,
     pub incomplete: u64,
     pub per: Vec<serde_json::Value>,
+    /// direct (twin-independent) oracles of the schedules
+    pub violations: Vec<Violation>,
 }
 
 pub fn run_conformance(scns: Vec<DScn>) -> Conf {
-    let mut c = Conf { pruned: 0, schedules: 0, agreed: 0, steps: 0, divergences: vec![], incomplete: 0, per: vec![] };
+    let mut c = Conf { pruned: 0, schedules: 0, agreed: 0, steps: 0, divergences: vec![], incomplete: 0, per: vec![], violations: vec![] };
     for s in scns {
         let r = explore_dbx(&s);
         c.schedules += r.schedules;
@@ -108,6 +111,7 @@ pub fn run_conformance(scns: Vec<DScn>) -> Conf {
         c.pruned += r.pruned_ambiguous;
         c.per.push(json!({"scenario": s.name, "schedules": r.schedules, "agreed_with_twin": r.agreed, "deviation_bound": r.bound, "incomplete": r.incomplete, "pruned_ambiguous_timers": r.pruned_ambiguous}));
         c.divergences.extend(r.divergences);
+        c.violations.extend(r.violations);
     }
     c
 }
@@ -117,7 +121,19 @@ pub fn quick_conformance(ack: bool, closure: bool) -> Conf {
     let mut cfg = cfg_base("conf");
     cfg.ack = ack;
     cfg.closure = closure;
-    run_conformance(vec![single(&format!("conf {} size=17", cfg.class()), cfg, ack, 17, 1)])
+    let mut v = vec![single(&format!("conf {} size=17", cfg.class()), cfg.clone(), ack, 17, 1)];
+    if ack {
+        // the empty file: with the Metadata PDU lost the EOF is the first PDU to reach the
+        // destination daemon (its routing, not the transaction, decides what happens then)
+        v.push(single(&format!("conf {} size=0", cfg.class()), cfg, ack, 0, 2));
+    }
+    if ack && !closure {
+        // the source name is a symbolic link: the daemon derives the sizes it announces from it
+        let mut l = single(&format!("conf {} size=17 source is a symbolic link", cfg_base("conf").class()), cfg_base("conf"), true, 17, 0);
+        l.src_symlink = true;
+        v.push(l);
+    }
+    run_conformance(v)
 }
 
 pub fn c11(args: &Args) -> Report {
@@ -143,6 +159,8 @@ pub fn c11(args: &Args) -> Report {
     for d in &conf.divergences {
         rep.machinery_errors.push(format!("MODEL-DIVERGENCE (single transaction): {}", d));
     }
+    // (the direct completion oracle of diverged single-transaction schedules belongs to C02 and
+    // is reported by that check; here the divergence stays a machinery error)
     // 2. concurrent transactions and strays
     let mut schedules = 0;
     let mut agreed = 0;
@@ -228,6 +246,7 @@ pub fn c11_scenarios(tier: Tier) -> Vec<DScn> {
         seq_start: None,
         bursts: false,
         default_cfg: None,
+        src_symlink: false,
     };
     v.push(base.clone());
     // per-entity configuration: each daemon holds an entry for its peer (immediate NAK, limit 2);
